@@ -63,14 +63,46 @@ def as_u64(v):
     return v % (1 << 64)
 
 
-# ------------------------------------------------------------------ type probes
+# _Generic selection itself: the controlling expression is NOT promoted (C11 6.5.1.1p2-3), top-level
+# qualifiers are dropped by lvalue conversion (DR 481), so every basic type selects its own association
+TN2_MACRO = ('#define TN2(e) _Generic((e), _Bool:0, char:1, signed char:2, unsigned char:3, short:4, unsigned short:5, '
+             'int:6, unsigned int:7, long:8, unsigned long:9, long long:10, unsigned long long:11, float:12, double:13, '
+             'long double:14, default:-1)\n')
+# character constants: 6.4.4.4p10 integer character constant: int; p11 u'x' char16_t, U'x' char32_t (<uchar.h>:
+# uint_least16_t / uint_least32_t = unsigned short / unsigned int); L'x' (wchar_t = int) is the known finding
+# prog:corpus:c07_prog_wchar_const.c and is probed there
+CHAR_CONSTS = [("'a'", 6), ("'\\xff'", 6), ("'\\0'", 6), ("'\\377'", 6), ("u'a'", 5), ("U'a'", 7), ("u'\\xffff'", 5)]
+# promotion of bit-fields of type _Bool / int / unsigned (6.3.1.1p2): int if int can represent all values of
+# the field, else unsigned int; char and short bit-fields (implementation-defined types, gcc: like int)
+BF_PROM = [(t, w) for t in ('int', 'uint') for w in (1, 2, 7, 8, 15, 16, 17, 30, 31, 32)] + \
+          [('bool', 1), ('char', 1), ('char', 7), ('char', 8), ('uchar', 8), ('schar', 3), ('short', 16), ('ushort', 16),
+           ('ushort', 9), ('short', 1)]
+
+
+def fixed_expect(name):
+    """expected type id of the probes whose expectation does not come from the Coq conversion model"""
+    w = name.split()
+    if w[0] in ('glv', 'gcast', 'gclv'):
+        return int(w[1])
+    if w[0] == 'chr':
+        return CHAR_CONSTS[int(w[1])][1]
+    if w[0] == 'chrsize':
+        return 4
+    if w[0] == 'bfp':
+        t, wd = BF_PROM[int(w[1])]
+        return ORD['uint'] if (t == 'uint' and wd == 32) else ORD['int']
+    return None
+
+
 def type_probe_unit(lits):
     """C text printing one line per probe: 'conv i j id', 'cond i j id', 'shift i j id', 'cmp i j id',
     'un op i id', 'lit k id'.  lits: list of literal spellings."""
-    s = ['#include <stdio.h>\n', TN_MACRO]
+    s = ['#include <stdio.h>\n', TN_MACRO, TN2_MACRO]
     for i, t in enumerate(TYPES):
         s.append('%s v%d;\n' % (CNAME[t], i))
+        s.append('const %s cv%d = 1;\n' % (CNAME[t], i))
     s.append('volatile int vc;\n')
+    s.append('struct BFP { %s } bfp;\n' % ' '.join('%s b%d : %d;' % (CNAME[t], k, w) for k, (t, w) in enumerate(BF_PROM)))
     rows = []
     n = len(TYPES)
     for i in range(n):
@@ -90,6 +122,17 @@ def type_probe_unit(lits):
             rows.append(('un ~ %d' % i, 'TN(~v%d)' % i))
     for k, l in enumerate(lits):
         rows.append(('lit %d' % k, 'TN(%s)' % l))
+    for i in range(n):
+        rows.append(('glv %d' % i, 'TN2(v%d)' % i))
+        rows.append(('gcast %d' % i, 'TN2((%s)v6)' % CNAME[TYPES[i]]))
+        rows.append(('gclv %d' % i, 'TN2(cv%d)' % i))
+    for k, (c, _) in enumerate(CHAR_CONSTS):
+        rows.append(('chr %d' % k, 'TN2(%s)' % c))
+    rows.append(('chrsize 0', "(int) sizeof ('a')"))
+    for k in range(len(BF_PROM)):
+        rows.append(('bfp %d +' % k, 'TN(+bfp.b%d)' % k))
+        rows.append(('bfp %d -' % k, 'TN(bfp.b%d - 1)' % k))
+        rows.append(('bfp %d <<' % k, 'TN(bfp.b%d << 1)' % k))
     s.append('static const signed char tab[] = {\n')
     for r in rows:
         s.append('  %s,\n' % r[1])
@@ -248,3 +291,26 @@ def value_unit(cases, expected, per_func=25):
         s.append('  f%d ();\n' % i)
     s.append('  return 0;\n}\n')
     return ''.join(s)
+
+
+# ------------------------------------------------------------------ pinned implementation-defined choices
+# C11 leaves these to the implementation (6.7.2.2p4: the type compatible with an enumerated type), c2m and gcc
+# choose differently and both are conforming; representation and size agree, so calls between the two compilers'
+# code are unaffected.  The check records c2m's documented choice and notes a change without raising an alarm.
+PIN_UNIT = TN_MACRO + r'''#include <stdio.h>
+enum EP { EPA, EPB };              /* no negative enumerator: c2m int, gcc unsigned int */
+enum EN { ENA = -1, ENB };         /* negative enumerator: int for both */
+enum EU { EUA = 0x80000000u };     /* does not fit int: unsigned int for both */
+int main (void) {
+  printf ("enum-nonneg-type %d\n", TN((enum EP) 0));
+  printf ("enum-nonneg-minus1-lt0 %d\n", (enum EP) -1 < 0);
+  printf ("enum-nonneg-size %d\n", (int) sizeof (enum EP));
+  printf ("enum-neg-type %d\n", TN((enum EN) 0));
+  printf ("enum-big-type %d\n", TN((enum EU) 0));
+  printf ("enum-constant-type %d\n", TN(EPB));
+  return 0;
+}
+'''
+PIN_EXPECT = {   # name: (c2m as documented in design/C07.md, gcc)
+    'enum-nonneg-type': (6, 7), 'enum-nonneg-minus1-lt0': (1, 0), 'enum-nonneg-size': (4, 4),
+    'enum-neg-type': (6, 6), 'enum-big-type': (7, 7), 'enum-constant-type': (6, 6)}
